@@ -37,7 +37,7 @@ for name in sorted(os.listdir(os.path.join(ROOT, "seeded"))):
             continue
         out = "/tmp/vout_rerun_" + name
         env2 = dict(env, GOSYM_BIN=frozen, VERIF_REPO=wt, VERIF_OUT=out, VERIF_EVIDENCE_DIR=out + "/evidence")
-        checks = {}
+        checks = dict(meta.get("checks_run_against_it") or {}) if forced else {}  # --props: refresh only those, keep the others
         for p in props:
             t0 = time.time()
             r = subprocess.run("./check %s" % p, shell=True, cwd=ROOT, env=env2, capture_output=True, text=True, timeout=7200)
